@@ -310,3 +310,14 @@ package dtlshandshake
 //@ ensures invalid-request-rejected: request != handshake.KeyUpdateNotRequested && request != handshake.KeyUpdateRequested ==> result != nil && !called("fsm13.submitPostHandshakeCommand")
 //@ ensures queued-once: ncalls("fsm13.submitPostHandshakeCommand") <= 1 && ncalls("fsm13.waitPostHandshakeCompletion") <= 1
 //@ end
+
+// Every KeyUpdate flight consumes one handshake message sequence number (RFC 9147 5.2: message_seq increases by one per
+// message): a second KeyUpdate that re-used the number would be ACKed as a retransmission and never switch the peer's keys.
+//@ func postHandshake.buildKeyUpdateFlight
+//@ requires args: p != nil && p.state != nil
+//@ ensures ku-sequence-consumed: result1 == nil ==> p.state.HandshakeSendSequence == old(p.state.HandshakeSendSequence) + 1
+//@ ensures ku-carries-the-consumed-number: result1 == nil && old(p.state.HandshakeSendSequence) >= 0 ==> int(result0.ID.MessageSequence) == old(p.state.HandshakeSendSequence)
+//@ ensures ku-failure-consumes-nothing: result1 != nil ==> p.state.HandshakeSendSequence == old(p.state.HandshakeSendSequence) && result0 == nil
+//@ ensures ku-protected-and-tracked: result1 == nil ==> len(result0.Packets) == 1 && result0.Packets[0].ShouldEncrypt && result0.Packets[0].ShouldTrackACK
+//@ ensures ku-sent-under-current-epoch: result1 == nil ==> result0.Epoch == result0.Packets[0].Record.Header.Epoch
+//@ end
